@@ -6,7 +6,7 @@ from pipes_common import PipeSpec, XSlicesAgreeSpec
 SPECS = {"scale": (ScaleSpec(['last']), "harness", "runner"), "iterator": (PipeSpec("iter", False), "harness", "runner"), "stream": (PipeSpec("stream", False), "harness", "runner"), "xslices": (XSlicesAgreeSpec(), "harness", "runner"),
          "iterator-panics": (PipeSpec("iter", False, panics=True), "harness", "runner")}
 
-PROP_FILES = ["C07"]
+PROP_FILES = ["C07", "TranslatedSlices2"]
 
 
 def run(ctx):
